@@ -150,6 +150,26 @@ func finishRes(o *c.Out, rr *resRun) {
 		prev = s.Counts
 	}
 	o.Count("res:gen=" + strings.SplitN(k.Gen, ":", 2)[0])
+	// phasedness (Phased.calls_phasedb) of the operation sequence: reported, not
+	// demanded — the op-soups re-acquire after a release on purpose, the tie
+	// between model and code must hold there too
+	{
+		released, ph := map[int]bool{}, true
+		for _, s := range k.Steps {
+			if s.Kind != "op" {
+				continue
+			}
+			switch s.Op.Name {
+			case "inc", "allowed":
+				if released[s.Op.R] {
+					ph = false
+				}
+			case "dec", "drop", "finish":
+				released[s.Op.R] = true
+			}
+		}
+		o.Count(fmt.Sprintf("res:phased=%v", ph))
+	}
 	o.Count(fmt.Sprintf("res:quotas=%d", len(k.Cfg.Rows)))
 	o.Count(fmt.Sprintf("res:steps=%02d-%02d", len(k.Steps)/10*10, len(k.Steps)/10*10+9))
 	idx := o.Case("res", coqRes(k), k, refusal && release)
@@ -644,9 +664,57 @@ func finishEng(o *c.Out, er *engRun) {
 	o.Count(fmt.Sprintf("eng:gc-wakeups=%02d-%02d", gcs/5*5, gcs/5*5+4))
 	idx := o.Case("eng", coqEng(k), k, refusal && release)
 	o.MonitorChecked(1)
-	for _, h := range toHits("eng", idx, runMonitor(&k.Cfg.Cfg, er.log, er.cnts), k) {
+	hits := runMonitor(&k.Cfg.Cfg, er.log, er.cnts)
+	// the hypothesis "phased" of the uniqueness / no-leak / interleaving theorems
+	// (Phased.calls_phasedb on the calls of the trace), checked on what the
+	// engine really executed
+	switch ph, byEngine, detail := engPhased(k); {
+	case ph:
+		o.Count("eng:phased=yes")
+	case !byEngine:
+		o.Count("eng:phased=no(harness sent a request after the response / error of the same id)")
+	default:
+		o.Count("eng:phased=no(ENGINE)")
+		hits = append(hits, monHit{"assumption:engine-acquires-after-release",
+			"within one ExecuteFlow call no quota is acquired (QuotaProcessorInc / Limiter) after a release (QuotaProcessorDec / early-response drop / finish) of the same transaction, and a response-direction call acquires nothing (hypothesis 'phased' of C02_release_once / C02_no_leak / the interleaving theorems)",
+			detail})
+	}
+	for _, h := range toHits("eng", idx, hits, k) {
 		o.Hit(h)
 	}
+}
+
+// engPhased replays Phased.calls_phasedb over the operations the engine
+// executed: per transaction id no acquire operation (inc / allowed) after a
+// release operation (dec / drop / finish). byEngine tells whether the first
+// offence lies inside ONE ExecuteFlow call, or in a response-direction call
+// (the engine's doing), rather than in the order in which the harness sent the
+// calls (its noise: a response or an error for an id whose request comes later).
+func engPhased(k *EngCase) (phased, byEngine bool, detail string) {
+	released := map[int]bool{}
+	for si, s := range k.Steps {
+		switch s.Kind {
+		case "err":
+			released[s.R] = true
+		case "req", "resp":
+			relInCall := false
+			for _, p := range s.Trace {
+				acquire := p.Kind == "lim" || (p.Kind == "inc" && p.Apply)
+				release := p.Kind == "gen" || p.Kind == "dec" || p.Kind == "finish"
+				if acquire && released[s.R] {
+					if relInCall || s.Kind == "resp" {
+						return false, true, fmt.Sprintf("step %d (%s of transaction %d): processors %+v", si, s.Kind, s.R, s.Trace)
+					}
+					return false, false, ""
+				}
+				if release {
+					released[s.R] = true
+					relInCall = true
+				}
+			}
+		}
+	}
+	return true, false, ""
 }
 
 func replayEng(o *c.Out, old EngCase) {
@@ -835,6 +903,34 @@ func genCorpus(o *c.Out) {
 		rr.op(0, "finish", 0, false)
 		lim(rr, 100, 1, true)
 	})
+	// partially held chain: the child's slot (ttl 1 s) expired and was collected, the parent's
+	// (ttl 3 s) is still held: the response's Dec(child) stops at "not found", the parent's slot
+	// stays until its own expiry (C02_dec_releases_held_prefix: the held prefix is empty)
+	script("partial-chain", Cfg{Rows: []QRow{{Max: 1, TTLSec: 3, GCSec: huge, Parent: -1}, {Max: 1, TTLSec: 1, GCSec: huge, Parent: 0}}}, func(rr *resRun) {
+		lim(rr, 0, 1, false)
+		rr.do(RStep{Kind: "tick", Dt: sec + sec/2})
+		rr.do(RStep{Kind: "gc", Q: 1})
+		rr.op(0, "getq", 1, false)
+		rr.op(0, "dec", 1, false)
+		rr.op(0, "finish", 0, false)
+		lim(rr, 1, 1, false) // child free again, parent still full: refused, keeps the child's slot ...
+		rr.op(1, "drop", 0, false) // ... which the 429's drop gives back (held prefix = the child alone)
+		rr.do(RStep{Kind: "tick", Dt: sec + sec/2 + deltaNs})
+		rr.do(RStep{Kind: "gc", Q: 0})
+		lim(rr, 100, 1, true)
+	})
+	// a drop after the parent refused, parent and child both with room again afterwards
+	script("parent-refuses-then-room", Cfg{Rows: []QRow{{Max: 1, TTLSec: 2, GCSec: huge, Parent: -1}, {Max: 1, TTLSec: 2, GCSec: huge, Parent: 0},
+		{Max: 2, TTLSec: 2, GCSec: huge, Parent: 0}}}, func(rr *resRun) {
+		lim(rr, 0, 1, false) // holds child 1 and the root
+		lim(rr, 1, 2, false) // child 2 admits, the root refuses
+		lim(rr, 2, 2, false) // child 2 admits (max 2), the root refuses
+		rr.op(1, "drop", 0, false)
+		rr.op(2, "drop", 0, false)
+		rr.op(0, "drop", 0, false)
+		lim(rr, 100, 2, true)
+		lim(rr, 101, 2, true)
+	})
 	// the same through the engine: abandoned transactions expire, the GC goroutine wakes once
 	for _, style := range []string{"429", "early", "forward"} {
 		for _, two := range []bool{false, true} {
@@ -860,6 +956,23 @@ func genCorpus(o *c.Out) {
 			}
 			finishEng(o, er)
 		}
+	}
+	// partially held chain through the engine: the child's GC collects at 2 s, the response comes
+	// at 2 s, the parent is held until 3.01 s (+ its GC): request 1 is refused by the parent and
+	// its 429 gives the child's slot back
+	{
+		k := &EngCase{}
+		k.Cfg.Cfg = Cfg{Rows: []QRow{{Max: 1, TTLSec: 3, GCSec: 1, Parent: -1}, {Max: 1, TTLSec: 1, GCSec: 1, Parent: 0}}}
+		k.Cfg.Limiter, k.Cfg.Limiter2, k.Cfg.Style = 1, -1, "429"
+		er := startEng(k)
+		er.do(EStep{Kind: "req", R: 0})
+		er.do(EStep{Kind: "adv", Dt: 2 * sec})
+		er.do(EStep{Kind: "resp", R: 0})
+		er.do(EStep{Kind: "req", R: 1})
+		er.do(EStep{Kind: "req", R: 2})
+		er.do(EStep{Kind: "adv", Dt: 2 * sec})
+		er.do(EStep{Kind: "req", R: 100, Probe: true})
+		finishEng(o, er)
 	}
 	// two unrelated quotas in one flow: the early answer (refused by the second) must free the first
 	{
